@@ -11,9 +11,9 @@
    exactly q, now ANY finite binary64 value.
 
    Not covered (answer [Inexact], the case is discarded from the model comparison and judged by the
-   oracle only): results that overflow (Python gives inf or OverflowError), // % ** with a float
-   operand outside the small-dyadic domain of Val.v (CPython composes several rounded steps / libm
-   pow there), the sign of a zero.  Everything else is Val.binop unchanged.
+   oracle only): results that overflow (Python gives inf or OverflowError), % ** with a float
+   operand outside the small-dyadic domain of Val.v (CPython composes a rounded step / libm
+   pow there), the sign of a zero.  // with a float operand follows CPython's rounded steps (flt_floordiv).  Everything else is Val.binop unchanged.
 
    [binop_ieee] is the operator semantics the C08 correspondence passes to Pat/Step.v (where the
    semantics of the PBinOp classes is a Section variable).  No proofs here. *)
@@ -73,6 +73,37 @@ Definition flt_ieee (o : op) (a b : Q) : outcome val :=
   | _ => Inexact
   end.
 
+(** float // float as CPython computes it (Objects/floatobject.c, _float_div_mod): fmod is exact, but the
+    difference, the quotient, the correction by one and the final snap are each ROUNDED, so the result can be
+    one off the floor of the exact quotient once that needs more than 53 bits on the way
+    (2.5 // 3e-16 = 8333333333333334.0, floor of the exact quotient ...333).  A zero quotient keeps Val's
+    answer (the sign of a zero is not modelled). *)
+Definition c_fmod (a b : Q) : Q := a - b * inject_Z (Qtrunc (a / b)).
+
+Definition flt_floordiv (a b : Q) : outcome val :=
+  if qzero b then Raise ZeroDivisionError
+  else
+    let m := c_fmod a b in
+    obind (round64 (a - m)) (fun d0 =>
+    obind (round64 (d0 / b)) (fun d1 =>
+    let adj := negb (qzero m) && negb (Bool.eqb (Qltb b 0) (Qltb m 0)) in
+    obind (if adj then round64 (d1 - 1) else Yield d1) (fun d =>
+    if qzero d then Yield (VFlt 0)
+    else
+      let f := inject_Z (Qfloor d) in
+      omap VFlt (round64 (if Qltb (1 # 2) (d - f) then f + 1 else f))))).
+
+Definition floordiv_ieee (a b : val) : option (outcome val) :=
+  match int_of a, int_of b with
+  | Some _, Some _ => None                                      (* int // int: exact, Val.binop *)
+  | _, _ =>
+      match num_of a, num_of b with
+      | Some (x, fx), Some (y, fy) =>
+          Some (obind (to_flt x fx) (fun x' => obind (to_flt y fy) (fun y' => flt_floordiv x' y')))
+      | _, _ => None
+      end
+  end.
+
 (** the value lies in the domain on which Val.binop vouches for // % ** *)
 Definition small_num (v : val) : bool :=
   match v with
@@ -97,8 +128,13 @@ Definition binop_ieee (o : op) (a b : val) : outcome val :=
         end
     end
   else if is_cmp o then Val.binop o a b                        (* comparisons are exact in Python *)
-  else if small_num a && small_num b then Val.binop o a b      (* // % ** << >> *)
-  else Inexact.
+  else
+    match (if op_eqb o OFloorDiv then floordiv_ieee a b else None) with
+    | Some r => r                                              (* a float operand of //: CPython's rounded steps *)
+    | None =>
+        if small_num a && small_num b then Val.binop o a b     (* % ** << >>, int // int *)
+        else Inexact
+    end.
 
 (** the float m * 2^e as a value (how the harness writes float literals: short, whatever the magnitude) *)
 Definition mkf (m e : Z) : val :=
